@@ -76,6 +76,25 @@ const epochKey = "\x00epoch"
 
 func (E *Engine) havocAll(st *State, why string) {
 	E.note("havoc of the whole heap: %s", why)
+	held := E.heldProtected(st)
+	type keepCell struct{ comp, ref, val, sort string }
+	var cells []keepCell
+	for _, h := range held {
+		srt, ok := E.cur.compSort[h[0]]
+		if !ok {
+			continue
+		}
+		if _, touched := st.heap[h[0]]; !touched {
+			continue
+		}
+		cells = append(cells, keepCell{h[0], h[1], sx("select", st.heap[h[0]], h[1]), srt})
+	}
+	defer func() {
+		for _, c := range cells {
+			a := E.heapArrSort(st.heap, c.comp, c.sort)
+			st.heap[c.comp] = sx("store", a, c.ref, c.val)
+		}
+	}()
 	ep := st.heap[epochKey]
 	nh := map[string]string{epochKey: ep + "'"}
 	for k, v := range st.heap {
@@ -248,6 +267,10 @@ func (E *Engine) doCall(st *State, in ssa.Instruction, cc *ssa.CallCommon, res s
 	}
 	r := E.applySpec(st, in, spec, callee, cc.Signature(), args, fnv.Fn.Bindings, false)
 	E.setResult(st, res, r)
+	if E.pendingAtomic {
+		E.pendingAtomic = false
+		E.sharedStableCheckAll(st, in, "atomic#"+E.site(in))
+	}
 	return nil
 }
 
